@@ -640,6 +640,9 @@ func (c *CEDARTLSConnection) sendMessage(ctx context.Context, data []byte) error
 	return nil
 }
 
+// maxTLSMessageLen bounds one TLS-over-CEDAR handshake message.
+const maxTLSMessageLen = 1 << 20
+
 // receiveMessage receives TLS handshake data following HTCondor's exact protocol:
 // status (int) + length (int) + data bytes
 func (c *CEDARTLSConnection) receiveMessage(ctx context.Context) ([]byte, error) {
@@ -655,6 +658,12 @@ func (c *CEDARTLSConnection) receiveMessage(ctx context.Context) ([]byte, error)
 	length, err := msg.GetInt(ctx)
 	if err != nil {
 		return nil, fmt.Errorf("failed to get TLS data length: %w", err)
+	}
+
+	// The length is chosen by the peer: bound it before allocating (HTCondor's
+	// AUTH_SSL_BUF_SIZE is 1 MiB).
+	if length < 0 || length > maxTLSMessageLen {
+		return nil, fmt.Errorf("invalid TLS data length %d", length)
 	}
 
 	// HTCondor protocol: receive data bytes third (if length > 0)
